@@ -1,58 +1,77 @@
-"""Unit-local extraction plugin for blocking_queue: RAII scope exit of the lock guard (R11).
+"""Unit-local extraction plugin for blocking_queue: RAII scope exit of lock guards (R11).
 
 `std::unique_lock<std::mutex> lock(_mutex);` / `std::lock_guard<...> lock(_mutex);` is rewritten by a declared rule into
-`iora_ulock lock = iora_ulock_make(&_mutex);`. C has no destructors, so this hook makes the scope exit explicit:
-every `return E;` after the declaration becomes `{ RET iora_rv = E; iora_ulock_dtor(&lock); return iora_rv; }` (E is evaluated
-BEFORE the guard is released, as in C++), and a function that can fall off its end gets the dtor call appended.
-Only guards declared at the top level of the function body are supported (anything else is an extraction break)."""
-from vt.lexer import Tok, match_close
+`iora_ulock lock = iora_ulock_make(&_mutex);`. C has no destructors, so this hook makes every scope exit explicit:
+  * every `return E;` between the declaration and the end of its enclosing block becomes
+        { RET iora_rv = E; iora_ulock_dtor(&lock); return iora_rv; }      (E is evaluated BEFORE the guard is released, as in C++)
+  * `iora_ulock_dtor(&lock);` is inserted before the closing brace of the enclosing block (or at the end of a void function).
+`break` / `continue` / `goto` out of a guarded block are outside the subset (extraction break)."""
+from vt.lexer import Tok
 from vt.x2c import ExtractionBreak
 
 
-def hook_before_loops(t, rw):
-    decl = None
+def _dtor(name, L):
+    return [Tok('id', 'iora_ulock_dtor', L, final=True), Tok('op', '(', L), Tok('op', '&', L), Tok('id', name, L, final=True),
+            Tok('op', ')', L), Tok('op', ';', L)]
+
+
+def _one(t, rw, decl, rett):
+    name = t[decl + 1].text
+    # end of the enclosing block
     depth = 0
-    for i, x in enumerate(t):
+    end = len(t)
+    for i in range(decl, len(t)):
+        x = t[i]
         if x.kind in ('str', 'chr', 'expr'):
             continue
         if x.text == '{':
             depth += 1
         elif x.text == '}':
             depth -= 1
-        elif x.kind == 'id' and x.text == 'iora_ulock' and i + 2 < len(t) and t[i + 1].kind == 'id' and t[i + 2].text == '=':
-            if decl is not None:
-                raise ExtractionBreak(f"{rw.prefix}: more than one lock guard in one function is outside the subset")
-            if depth != 0:
-                raise ExtractionBreak(f"{rw.prefix}: lock guard declared in a nested scope is outside the subset")
-            decl = i
-    if decl is None:
-        return t
-    name = t[decl + 1].text
-    cdecl = rw.fn['cdecl'].strip()
-    rett = cdecl.split(rw.fn.get('cname', rw.fn['name']))[0].replace('static', '').replace('inline', '').strip()
+            if depth < 0:
+                end = i
+                break
     out = list(t[:decl])
+    t[decl].final = True
     i = decl
     n = 0
-    while i < len(t):
+    while i < end:
         x = t[i]
+        if x.kind == 'id' and x.text in ('break', 'continue', 'goto'):
+            raise ExtractionBreak(f"{rw.prefix}: `{x.text}` inside a lock-guarded block is outside the subset")
         if x.kind == 'id' and x.text == 'return':
-            end = rw._stmt_end(t, i)
+            e = rw._stmt_end(t, i)
             L = x.line
-            expr = t[i + 1:end]
-            dtor = [Tok('id', 'iora_ulock_dtor', L, final=True), Tok('op', '(', L), Tok('op', '&', L), Tok('id', name, L, final=True), Tok('op', ')', L), Tok('op', ';', L)]
-            if rett == 'void' or not expr:
-                out += [Tok('op', '{', L)] + dtor + [Tok('id', 'return', L, final=True), Tok('op', ';', L), Tok('op', '}', L)]
+            expr = t[i + 1:e]
+            if len(expr) == 1 and expr[0].text == 'iora_rv' or (not expr and x.final):
+                out += _dtor(name, L) + t[i:e + 1]          # already made explicit for an inner guard: release this one too
+            elif rett == 'void' or not expr:
+                out += [Tok('op', '{', L)] + _dtor(name, L) + [Tok('id', 'return', L, final=True), Tok('op', ';', L), Tok('op', '}', L)]
             else:
                 out += [Tok('op', '{', L)] + [Tok('id', w, L, final=True) for w in rett.split()] + [Tok('id', 'iora_rv', L, final=True), Tok('op', '=', L)] + expr + [Tok('op', ';', L)]
-                out += dtor + [Tok('id', 'return', L, final=True), Tok('id', 'iora_rv', L, final=True), Tok('op', ';', L), Tok('op', '}', L)]
+                out += _dtor(name, L) + [Tok('id', 'return', L), Tok('id', 'iora_rv', L, final=True), Tok('op', ';', L), Tok('op', '}', L)]
             n += 1
-            i = end + 1
+            i = e + 1
             continue
         out.append(x)
         i += 1
-    if rett == 'void':
-        L = t[-1].line
-        out += [Tok('id', 'iora_ulock_dtor', L, final=True), Tok('op', '(', L), Tok('op', '&', L), Tok('id', name, L, final=True), Tok('op', ')', L), Tok('op', ';', L)]
+    if end < len(t) or rett == 'void':
+        L = t[end - 1].line if end > 0 else 0
+        out += _dtor(name, L)
         n += 1
+    out += t[end:]
     rw.R.fire('R11 scope exit', n)
     return out
+
+
+def hook_before_loops(t, rw):
+    cdecl = rw.fn['cdecl'].strip()
+    rett = cdecl.split(rw.fn.get('cname', rw.fn['name']))[0].replace('static', '').replace('inline', '').strip()
+    while True:
+        decl = None
+        for i, x in enumerate(t):
+            if x.kind == 'id' and x.text == 'iora_ulock' and not x.final and i + 2 < len(t) and t[i + 1].kind == 'id' and t[i + 2].text == '=':
+                decl = i
+        if decl is None:
+            return t
+        t = _one(t, rw, decl, rett)       # innermost/last first, so an outer guard sees the inner one's explicit returns
